@@ -26,7 +26,7 @@ RULE = ('every single-band amplifier model of the shipped libraries (stock, test
         'Distinct: hash of (model entry, operational settings, spectrum). Situation classes: model type x saturated? '
         'x gain region x tilt? recorded.')
 ASSUMPTIONS = ['OpenROADM NF judged on uniform grids only (the model assumes per-50GHz input power on a uniform grid)',
-               'with tilt or gain ripple the total gain is only required within 0.05 dB (single secant step documented '
+               'with tilt or gain ripple the total gain is only required within the error bound of the single secant step (h^2/8*ln10/10*Var(dgt), x2; documented '
                'in the implementation); flat gain within 1e-9 dB',
                'reference NF models written from docs/amplifier_models_description.rst and the two-coil operator model']
 REQUIRED_COUNTERS = {'crossings': 100, 'ase_checks': 100, 'gain_clamp_checks': 100, 'saturated_crossings': 10,
@@ -160,7 +160,28 @@ def cross_and_check(ctx, rng, ej, equipment, extra, name, *, carriers, uniform, 
     g_i = sig_out / sig_in * 10 ** (out_voa / 10)          # amplifier gain before the output VOA
     tot_gain = 10 * np.log10((pin_w * g_i).sum() / pin_w.sum())
     flat = (tilt == 0 and np.ptp(np.atleast_1d(eqa.gain_ripple)) == 0) or a.n == 1
-    tol = 1e-9 if flat else 0.05
+    if flat:
+        tol = 1e-9
+    else:
+        # The gain profile is normalised with ONE secant step on gavg(x) = total gain as a function of the DGT
+        # scaling x, over a bracket of half-width h = ptp(first-estimate profile); gavg'' = ln10/10 * Var_w(dgt),
+        # so the method's own interpolation error is <= h^2/8 * ln10/10 * Var_w(dgt).  A profile with less than
+        # 0.05 dB of ripple is returned after the unweighted normalisation only: error <= its ripple.
+        g_db = 10 * np.log10(g_i)
+        ptp_g = float(np.ptp(g_db))
+        dgt = np.asarray(amp.interpol_dgt, dtype=float)
+        if dgt.shape != g_db.shape:
+            dgt = np.full_like(g_db, 0.0)
+        w = pin_w * g_i
+        mean_d = float((w * dgt).sum() / w.sum())
+        var_d = float((w * (dgt - mean_d) ** 2).sum() / w.sum())
+        h = ptp_g + 0.2 * float(np.ptp(dgt))
+        if ptp_g <= 0.05 + 1e-9:
+            tol = ptp_g + 1e-9
+        else:
+            tol = 2.0 * h ** 2 / 8 * np.log(10) / 10 * max(var_d, float(np.ptp(dgt)) ** 2 / 12) + 1e-6
+        ctx.maxstat('total_gain_residual_over_secant_bound', abs(tot_gain - exp_gain) / tol)
+        ctx.maxstat('total_gain_tolerance_db', tol)
     if abs(tot_gain - exp_gain) > tol:
         ctx.violation('total-gain', f'{name}: power-weighted total gain {tot_gain:.6f} dB != effective gain '
                       f'{exp_gain:.6f} (tol {tol})', {'operational': operational, 'tilt': tilt, 'n': a.n})
